@@ -7,6 +7,6 @@ import "runtime"
 // With RaceDisable the race detector ignores *synchronisation* events of the calling
 // goroutine while it still records its memory accesses: the baton hand-over below
 // therefore creates no happens-before edge between tasks.
-func syncOff()     { runtime.RaceDisable() }
-func syncOn()      { runtime.RaceEnable() }
+func syncOff()        { runtime.RaceDisable() }
+func syncOn()         { runtime.RaceEnable() }
 func RaceBuild() bool { return true }
